@@ -194,6 +194,11 @@ func runCheck(cfg *propertyConfig, tier, repo string, seed int) int {
 		so, ns := cfg.Simple(prog, repo, tier)
 		simple = append(simple, so...)
 		notes = append(notes, ns...)
+		if os.Getenv("LVC_SHOW_SIMPLE") != "" {
+			for _, o := range so {
+				fmt.Printf("simple %v %s: %s\n", o.OK, o.Name, o.Detail)
+			}
+		}
 	}
 	var ln []string
 	for n := range usedLemmas {
